@@ -80,7 +80,34 @@ def obj_ln(o, x):
 CACHE_FIELDS = ("Sigma", "ln_det_Sigma", "ln_det_Lambda", "lnZ", "mu")
 
 
+def ctor_certificate(o):
+    """the object is exactly what the (separately proved, C02) density constructor derives from (Sigma, mu): precision and log-det
+    are the value-numbered inverse / log-determinant of its covariance, nu = Lambda mu, lnZ / ln_beta are the constructor's formulas.
+    Then every invariant follows from the constructor obligation by substitution of this covariance for the generic one."""
+    f = o.f
+    need = ("Sigma", "Lambda", "ln_det_Sigma", "mu", "nu", "lnZ", "ln_beta")
+    if any(not isinstance(f.get(k), Val) for k in need):
+        return False
+    L, ld = nf.inverse(f["Sigma"])
+    if nf.diff(f["Lambda"], L) or nf.diff(f["ln_det_Sigma"], ld):
+        return False
+    if nf.diff(f["nu"], nf.einsum("rab,ra->rb", f["Lambda"], f["mu"])):
+        return False
+    Dd = f["Sigma"].shape[-1]
+    lnZ = nf.scale(nf.add(nf.add(nf.einsum("ra,rab,rb->r", f["nu"], f["Sigma"], f["nu"]), nf.const(Dd * LOG2PI)), f["ln_det_Sigma"]), D(1) / 2)
+    if nf.diff(f["lnZ"], lnZ) or nf.diff(f["ln_beta"], nf.neg(f["lnZ"])):
+        return False
+    return True
+
+
 def invariant_diffs(o, fields=None, what="", lndet_oracle=None):
+    out = _invariant_diffs(o, fields, what, lndet_oracle)
+    if out and fields is None and ctor_certificate(o):
+        return []
+    return out
+
+
+def _invariant_diffs(o, fields=None, what="", lndet_oracle=None):
     """representation invariant of a factor/measure/density object: every non-None derived field agrees with the
     value defined by the natural parameters (Lambda, nu).  Returns a list of (field, diffs)."""
     out = []
